@@ -89,6 +89,7 @@ func (o *Obligation) OK() bool {
 }
 
 type FV struct {
+	noPrivate    bool            // the function takes element addresses or has closures: no array is treated as private
 	mentionMemo  map[string]bool // contractMentions cache
 	keepCounters map[string]bool // non-nil: havocAll preserves every bump: ghost counter NOT in this set (the callee cannot bump it on behalf of verified code)
 	eng  *Engine
@@ -381,6 +382,19 @@ func (fv *FV) run() {
 					if o, ok := fv.info.ObjectOf(id).(*types.Var); ok && !isPkgLevel(o) && !isObjectType(o.Type()) {
 						fv.boxed[o] = true
 					}
+				}
+			}
+		}
+		return true
+	})
+	ast.Inspect(u.Decl.Body, func(n ast.Node) bool {
+		switch n := n.(type) {
+		case *ast.FuncLit:
+			fv.noPrivate = true
+		case *ast.UnaryExpr:
+			if n.Op == token.AND {
+				if _, ok := ast.Unparen(n.X).(*ast.IndexExpr); ok {
+					fv.noPrivate = true
 				}
 			}
 		}
